@@ -9,6 +9,7 @@ DEMO=$(git status --short | grep '^??' | awk '{print $2}' | grep _test.go | head
 TESTS=$(grep -h '^func Test' $DEMO | sed 's/func \(Test[A-Za-z0-9_]*\).*/\1/' | paste -sd'|')
 echo "== $ID$SUF demo=$DEMO tests=$TESTS"
 git diff > /tmp/seedcheck-$ID.diff
+if [ -f $OUT/patch.diff ] && ! diff -q <(grep '^[+-]' $OUT/patch.diff | grep -v '^index') <(grep '^[+-]' /tmp/seedcheck-$ID.diff | grep -v '^index') >/dev/null; then echo "!! worktree diff differs from the agent's patch.diff"; fi
 echo "-- existing tests with the change (demo moved aside)"
 mv $DEMO /tmp/seedcheck-demo.go
 go test -count=1 -vet=off -tags unit ./$PKG/... 2>&1 | tail -3
@@ -17,9 +18,9 @@ mv /tmp/seedcheck-demo.go $DEMO
 echo "-- demo WITH change (expect FAIL)"
 go test -count=1 -vet=off -tags unit -run "$TESTS" ./$(dirname $DEMO)/ 2>&1 | tail -3
 echo "-- demo WITHOUT change (expect ok)"
-git stash -q
+git checkout -- .   # (git stash is shared between worktrees: do not use it)
 go test -count=1 -vet=off -tags unit -run "$TESTS" ./$(dirname $DEMO)/ 2>&1 | tail -3
-git stash pop -q
+git apply /tmp/seedcheck-$ID.diff
 echo "-- our checks against the change"
 cd /verif
 for c in $CHECKS; do
